@@ -29,6 +29,8 @@ LOCAL_KNOWN = [
      'signature': 'share pu N (mode numa-balanced'},
     {'id': 'max-cores-compact-oversubscribes',
      'signature': 'share pu N (mode compact, process mask ignored, max_cores below thread count'},
+    {'id': 'max-cores-compact-fewer-workers-than-threads',
+     'signature': 'workers started for N requested threads (bind compact, threads N, process mask ignored, cores below thread count'},
     {'id': 'max-cores-scatter-never-returns',
      'signature': 'does not terminate (mode scatter, process mask ignored, max_cores below thread count'},
     {'id': 'max-cores-balanced-never-returns',
@@ -158,6 +160,53 @@ def gen_cases(rng, synth, model, tr, tag, budget_div):
     return cases
 
 
+def gen_live(rng, count, tag):
+    """live starts of the real runtime on this machine (all PUs the process may use)"""
+    cpus = sorted(os.sched_getaffinity(0))
+    cpus = [c for c in cpus if c < 64]
+    cases = []
+    for i in range(count):
+        bind = rng.choice(['compact', 'scatter', 'balanced', 'numa-balanced', 'none'])
+        use = 0 if rng.below(5) == 0 else 1
+        if use and rng.below(3) != 0 and len(cpus) > 1:
+            k = 1 + rng.below(len(cpus))
+            sub = sorted(set(rng.choice(cpus) for _ in range(k)))
+            mask = '.'.join(map(str, sub))
+            avail = len(sub)
+        else:
+            mask, avail = 'all', len(cpus)
+        r = rng.below(10)
+        if r == 0:
+            thr, n = 'all', avail
+        elif r == 1:
+            thr, n = 'cores', avail            # no SMT assumed only for choosing pool ordinals
+        elif r == 2 and bind != 'none':
+            thr, n = str(avail + 1), 0         # must be rejected
+        else:
+            n = 1 + rng.below(avail)
+            thr = str(n)
+        cores = 0
+        if not use and bind == 'compact' and n > 1 and rng.below(3) == 0:
+            cores = 1 + rng.below(n - 1)       # --pika:cores below the thread count (known finding)
+        pools = '-'
+        if n > 1 and rng.below(2) == 0:
+            np_ = 1 + rng.below(2)
+            ords = list(range(n))
+            spec = []
+            for _ in range(np_):
+                take = []
+                for _ in range(1 + rng.below(2)):
+                    if rng.below(12) == 0:
+                        take.append(rng.below(n))          # may repeat a PU: must be refused
+                    elif ords:
+                        take.append(ords.pop(rng.below(len(ords))))
+                if take:
+                    spec.append('.'.join(map(str, take)))
+            pools = '/'.join(spec) or '-'
+        cases.append(f'case {tag}l{i} kind=live bind={bind} threads={thr} use={use} mask={mask} cores={cores} pools={pools}\nendcase')
+    return cases
+
+
 # ------------------------------------------------------------------------------ running
 def run_topology(hbin, synth, cases, tag):
     work = os.path.join(BUILD, 'work', f'{PROP}_{os.getpid()}')
@@ -178,6 +227,11 @@ def run_topology(hbin, synth, cases, tag):
     else:
         env['HWLOC_SYNTHETIC'] = synth
     env['HWLOC_THISSYSTEM'] = '0'
+    if synth == 'live':
+        env = dict(os.environ)
+        for k in ('HWLOC_SYNTHETIC', 'HWLOC_XMLFILE', 'HWLOC_THISSYSTEM'):
+            env.pop(k, None)
+        hbin = hbin + '_live'
     h = subprocess.run([hbin, cf], capture_output=True, text=True, env=env)
     driver = os.path.join(LEAN, '.lake', 'build', 'bin', 'driver')
     d = subprocess.run([driver, 'aff'], input=h.stdout, capture_output=True, text=True)
@@ -250,6 +304,8 @@ def main():
     ok_h, hbin, hlog = (False, '', '')
     if ok_p:
         ok_h, hbin, hlog = compile_harness('e0_affinity', 'e0/affinity.cpp', 'hooks')
+        if ok_h:
+            ok_h, _, hlog = compile_harness('e0_affinity_live', 'e0/affinity_live.cpp', 'hooks')
     if ok_p and ok_h:
         mk = sh(f'gcc -O1 {os.path.join(HERE, "harness", "e0", "mkxml.c")} -lhwloc -o {os.path.join(BIN, "e0_mkxml")}')
         if mk.returncode != 0:
@@ -295,10 +351,13 @@ def main():
             ex = list(extra_t)
             for _ in range(10):
                 chosen.append(ex.pop(rng.below(len(ex))))
-        chosen += asym_variants(rng, 150 if tr == 'thorough' else 12)
+        chosen += asym_variants(rng, 60 if tr == 'thorough' else 12)
         budget_div = [40 if tr == 'thorough' else 6]
         for ti, (synth, model) in enumerate(chosen):
             jobs.append((synth, gen_cases(rng, synth, model, tr, f's{base_seed}g{ti}', budget_div), f'g{ti}'))
+        nlive = 400 if tr == 'thorough' else 60
+        for li in range(4):
+            jobs.append(('live', gen_live(rng, nlive // 4, f's{base_seed}L{li}'), f'L{li}'))
 
     with ThreadPoolExecutor(max_workers=8) as ex:
         results = [r for rs in ex.map(lambda j: run_topology(hbin, j[0], j[1], j[2]), jobs) for r in rs]
@@ -321,7 +380,8 @@ def main():
             ties.append(r)
         if k in ('pass', 'known'):
             c = r['case']
-            mode = re.search(r'mode=(\S+)', c).group(1)
+            mm = re.search(r'mode=(\S+)', c)
+            mode = mm.group(1) if mm else 'live-' + re.search(r'bind=(\S+)', c).group(1)
             dist[mode] = dist.get(mode, 0) + 1
             if ' error ' in r['raw']:
                 dist['rejected'] = dist.get('rejected', 0) + 1
@@ -331,7 +391,8 @@ def main():
                 dist['mask_ignored'] = dist.get('mask_ignored', 0) + 1
             elif 'mask=all' not in c:
                 dist['asymmetric_mask'] = dist.get('asymmetric_mask', 0) + 1
-            n = int(re.search(r' n=(\d+)', c).group(1))
+            nm = re.search(r' n=(\d+)', c)
+            n = int(nm.group(1)) if nm else r['raw'].count('\nw ')
             if mode != 'topo' and (n >= 2 or ' error ' in r['raw']):
                 nontriv.add(re.sub(r'^case \S+', 'case', c))
 
@@ -381,7 +442,7 @@ TRUSTED = TRUSTED_BASE[:1] + [
     "the hand-written Lean model Model/Aff.lean follows parse_affinity_options.cpp / affinity_data.cpp / topology accessors / partitioner add_resource+setup_pools line by line; it is tied to the working tree only by the E0 differential run of this check (finite; counts below), not by a proof about the C++ text",
     "hwloc's synthetic topologies (HWLOC_SYNTHETIC) stand in for real machines; pika's topology object is built from them by the unmodified code",
     "std::round(double(a)/double(b)) is modelled as (2a+b)/(2b) on naturals (exact for operands below 2^26)",
-    "harness harness/e0/affinity.cpp, the line comparison in lean/Driver/AffDrv.lean, non-termination detected by a CPU-time limit (0.5 s user time for a microsecond computation)",
+    "harness harness/e0/affinity.cpp, the line comparison in lean/Driver/AffDrv.lean, non-termination detected by a CPU-time limit (0.3 s user time for a microsecond computation)",
 ]
 RULE = ("machine shapes pack:1-4 x core:1-8 x pu:1-4 (quick: 44 drawn + fixed witnesses; thorough: all 128) plus shapes with numa/l3 levels, without package "
         "objects and without core objects; per shape: process mask all / random subset / one PU per core / prefix cut inside a core / last hardware thread of "
